@@ -46,6 +46,10 @@ pub struct Phase {
     pub crash: Vec<usize>,
     /// true: call run(); false: emulate run() with step() and sample progress
     pub use_run: bool,
+    /// indices of hosts to bounce (restart) before running: the software starts again, with
+    /// its outcome time counted from now
+    #[serde(default)]
+    pub bounce: Vec<usize>,
 }
 
 #[derive(Clone, Debug, Serialize, Deserialize)]
@@ -271,6 +275,31 @@ pub fn run(sc: &Scenario) -> Outcome {
                 out.label("crashed-host");
             }
         }
+        for c in &ph.bounce {
+            if *c < live.len() && !live[*c].client {
+                sim.bounce(format!("s{c}"));
+                let sw = sc.phases.iter().flat_map(|p| p.register.iter()).nth(*c).cloned().unwrap();
+                let t = sw.t_ms as u64;
+                live[*c].cand = if sw.kind == Kind::Never {
+                    vec![]
+                } else if t == 0 {
+                    vec![e + 1]
+                } else if t % tick == 0 {
+                    boundary = true;
+                    vec![e + t / tick, e + t / tick + 1]
+                } else {
+                    vec![e + t.div_ceil(tick)]
+                };
+                live[*c].crashed = false;
+                live[*c].finished = false;
+                handles[*c].done.set(false);
+                handles[*c].frozen_at = None;
+                out.label("bounced-host");
+                if matches!(sw.kind, Kind::Panic | Kind::PanicSpawned) {
+                    out.label("panic-in-restarted-host");
+                }
+            }
+        }
         // softwares that finished in earlier phases are no longer live for the model
         let model_live: Vec<Live> = live
             .iter()
@@ -358,6 +387,9 @@ pub fn run(sc: &Scenario) -> Outcome {
                         .next()
                         .unwrap_or(el / tick + 1);
                     Res::ErrSw(n, k)
+                } else if adm.iter().any(|r| matches!(r, Res::Panic(_))) {
+                    out.fail("software-panic-returned-as-error-instead-of-unwinding", format!("run returned Err({msg:?}) where a host/client panic had to surface as a panic of the caller; admissible {adm:?}"));
+                    return out;
                 } else {
                     out.fail("unknown-error", format!("run returned unexpected error {msg:?}"));
                     return out;
@@ -465,8 +497,9 @@ pub fn strategy() -> BoxedStrategy<Scenario> {
                 proptest::collection::vec(sw_strategy(tick_ms, duration_ms), 0..5),
                 proptest::collection::vec(0usize..8, 0..2),
                 any::<bool>(),
+                proptest::collection::vec(0usize..8, 0..2),
             )
-                .prop_map(|(mut register, crash, use_run)| {
+                .prop_map(|(mut register, crash, use_run, bounce)| {
                     // at most one never-finishing client per phase, and not in most phases
                     let mut seen = false;
                     for s in register.iter_mut() {
@@ -477,7 +510,7 @@ pub fn strategy() -> BoxedStrategy<Scenario> {
                             seen = true;
                         }
                     }
-                    Phase { register, crash, use_run }
+                    Phase { register, crash, use_run, bounce }
                 });
             proptest::collection::vec(ph, 1..4).prop_map(move |phases| Scenario {
                 tick_ms,
